@@ -56,12 +56,14 @@ BASE = {"intalu": 0, "initorder": 1000000, "conv": 2000000, "minigo": 3000000}
 def part_intalu(ctx):
     wd = ctx.stage("mc_intalu", FAMS)
     rig.write_cfg(wd / "MC_IntALU.cfg", constants={"Tier": ctx.tier}, invariants=["ImplMeetsRef", "ConstFormSame"])
-    r = ctx.tlc(wd, "MC_IntALU", workers=rig.NCPU, timeout=1500, extra=["-continue"], coverage=False)
+    r = ctx.tlc(wd, "MC_IntALU", workers=rig.NCPU, timeout=1500, extra=["-continue"], coverage=not ctx.quick)
     if "Model checking completed" not in r.out:
         raise Infra(f"MC_IntALU did not complete: {wd}/MC_IntALU.out\n" + rig.tail(r.out, 25))
     cases = rig.read_ndjson(wd / "cases.ndjson")
     info = {"states": r.distinct, "transitions": r.generated, "mc_wall_s": round(r.wall, 1), "cases": len(cases),
             "mc_invariants": ["ImplMeetsRef", "ConstFormSame"]}
+    if not ctx.quick:
+        info["actions_never_taken"] = r.coverage_zero()
     # model-level counterexamples (diagnostic): classify the violating states printed by -continue
     viol = {}
     for m in re.finditer(r"Invariant (\w+) is violated\.(.*?)(?=\nError: Invariant|\nModel checking completed|\Z)", r.out, re.S):
@@ -91,7 +93,9 @@ def part_initorder(ctx):
     for k, (nv, nf, me) in enumerate(runs):
         wd = ctx.stage(f"mc_initorder_{k}", FAMS)
         rig.write_cfg(wd / "MC_InitOrder.cfg", constants={"NV": nv, "NF": nf, "MaxEdges": me}, invariants=["ImplMeetsRef", "RefTotal"])
-        r = ctx.tlc(wd, "MC_InitOrder", workers=rig.NCPU, timeout=1500, extra=["-continue"])
+        r = ctx.tlc(wd, "MC_InitOrder", workers=rig.NCPU, timeout=1500, extra=["-continue"], coverage=not ctx.quick)
+        if not ctx.quick:
+            info.setdefault("actions_never_taken", []).extend(r.coverage_zero())
         if "Model checking completed" not in r.out:
             raise Infra(f"MC_InitOrder did not complete: {wd}/MC_InitOrder.out\n" + rig.tail(r.out, 25))
         cs = rig.read_ndjson(wd / "cases.ndjson")
@@ -115,8 +119,10 @@ def part_conv(ctx):
     wd = ctx.stage("mc_conv", FAMS)
     invs = ["ImplMeetsRef", "EncDec", "DecEnc", "RangeIdx"]
     rig.write_cfg(wd / "MC_StrConv.cfg", constants={"MaxPieces": ctx.pick(2, 3)}, invariants=invs)
-    r = ctx.tlc(wd, "MC_StrConv", workers=4, timeout=1500)
+    r = ctx.tlc(wd, "MC_StrConv", workers=4, timeout=1500, coverage=not ctx.quick)
     info = {"states": r.distinct, "transitions": r.generated, "mc_wall_s": round(r.wall, 1), "mc_invariants": invs}
+    if not ctx.quick:
+        info["actions_never_taken"] = r.coverage_zero()
     if not r.ok:
         if r.invariant_violated:
             info["model_counterexample"] = {"invariants": r.invariant_violated, "tlc_out": str(wd / "MC_StrConv.out")}
@@ -448,6 +454,26 @@ def mg_programs(rng, n):
     return out
 
 
+MG_ALL_KINDS = {"e:" + k for k in ("c", "str", "v", "bin", "cmp", "and", "or", "not", "idx", "mapget", "len", "cap", "slice", "field", "addr",
+                                   "nilptr", "nilmap", "nilslice", "mkmap", "mkslice", "mkfuncs", "lit", "slicelit", "append", "clo", "call",
+                                   "box", "assert")} | \
+               {"s:" + k for k in ("nop", "label", "decl", "set", "print", "if", "for", "ranges", "switch", "break", "continue", "goto", "del",
+                                   "expr", "ret")}
+
+
+def mg_kinds(v, acc):
+    if isinstance(v, dict):
+        if isinstance(v.get("e"), str):
+            acc.add("e:" + v["e"])
+        if isinstance(v.get("s"), str):
+            acc.add("s:" + v["s"])
+        for x in v.values():
+            mg_kinds(x, acc)
+    elif isinstance(v, list):
+        for x in v:
+            mg_kinds(x, acc)
+
+
 def mg_tla(v):
     if isinstance(v, bool):
         return "TRUE" if v else "FALSE"
@@ -490,6 +516,10 @@ def part_minigo(ctx):
                               "exp": {"out": e["out"], "outcome": e["outcome"], "msg": e["msg"]}})
     info["cases"] = len(cases)
     info["shapes"] = shapes
+    # which syntactic categories of the interpreter the generated programs exercise (measured on the batch)
+    used = set()
+    mg_kinds(progs, used)
+    info["interpreter_cases_never_exercised"] = sorted(MG_ALL_KINDS - used)
     info["expected_panics"] = sum(1 for c in cases if c["exp"]["outcome"] == "panic")
     return cases, info
 
@@ -677,6 +707,7 @@ def run(ctx, replay_cases=None):
         states=sum(i.get("states", 0) for i in infos.values()),
         transitions=sum(i.get("transitions", 0) for i in infos.values()),
         parts=infos,
+        actions_never_taken=sorted({a for i in infos.values() for a in i.get("actions_never_taken", [])}),
         evaluations=len(allobs), traces_validated_against_impl=len(allobs),
         distinct_nontrivial=len({json.dumps(case_from_obs(o), sort_keys=True) + o.get("form", "") for o in allobs if nontrivial(o)}),
         rule="minigo: seeded programs of 9 shapes (labelled loops, switch/fallthrough, goto, closures, array/struct/pointer values, slice aliasing, maps, strings, run-time faults), expected output computed by TLC; non-trivial = more than one printed line or a panic. conv: all conversions of the 12-value rune set / strings of <= MaxPieces well- and ill-formed UTF-8 pieces; non-trivial = a non-ASCII value is involved. initorder: every dependency graph of the bounded space, one program each; non-trivial = at least one edge. intalu: TLC-exported space (all kinds x operators x boundary operands x shift counts), each case in the source forms var / literal operand / op-assignment / if-condition; non-trivial = result wrapped, shifted out, divided, converted or panicked. One record per (case, form).",
